@@ -23,8 +23,9 @@ enum { EV_ADD = 0, EV_RUN, EV_REPLY_OLDEST, EV_REPLY_NEWEST, EV_REPLY_DUP, EV_RE
        EV_SEND_WOULDBLOCK, EV_SEND_PARTIAL, EV_CLOCK_1, EV_CLOCK_BIG, EV_NEVENTS,
        EV_ADD_CONF = EV_NEVENTS,   /* a configuration request: only in the alphabet of part "conf" */
        EV_GROW,                    /* the application enlarges the request cache at run time: only in part "dfs2" */
+       EV_READD,                   /* the application submits a handle it got back once more (a new request with the same hash): only in part "readd" */
        EV_NALL };
-static const char EVCH[EV_NALL + 1] = "ARonduxmseg1haCXPwp+TKG";
+static const char EVCH[EV_NALL + 1] = "ARonduxmseg1haCXPwp+TKGZ";
 
 typedef struct { int cache, maxreq, snd, rcv, con; } config_t;
 
@@ -67,12 +68,15 @@ typedef struct {
 	int id_reuse_expected;          /* long runs through one slot (part wrap): the 8-bit generation counter wraps by design */
 	int conf_pending;               /* authentic pushed configurations that reached the client and are not yet accounted for by a returned notice */
 	long conf_arrived;              /* authentic configuration payloads that reached the client so far */
+	KSI_AsyncHandle *kept;          /* part "readd": the handle returned last, still owned by the application */
+	unsigned kept_seed;
 	int violated;
 } world_t;
+static int g_keep;                 /* returned handles are kept for re-submission instead of being freed */
 static world_t W;
 static char g_hist[40];
 static int g_cfg;
-#define HF(sig, ...) do { char _m[900]; snprintf(_m, sizeof _m, __VA_ARGS__); vf_fail(sig, "%s [history %s cfg %d; letters ARonduxmseg1haCXPwp+T = add,run,reply-oldest,reply-newest,dup,unknown-id,stale-id,bad-mac,status,error-pdu,push-conf,deliver1,half,all,peer-close,refuse-next-connect,pending-connect,send-wouldblock,send-partial,clock+1,clock+big; K = add configuration request]", _m, g_hist, g_cfg); } while (0)
+#define HF(sig, ...) do { char _m[900]; snprintf(_m, sizeof _m, __VA_ARGS__); vf_fail(sig, "%s [history %s cfg %d; letters ARonduxmseg1haCXPwp+T = add,run,reply-oldest,reply-newest,dup,unknown-id,stale-id,bad-mac,status,error-pdu,push-conf,deliver1,half,all,peer-close,refuse-next-connect,pending-connect,send-wouldblock,send-partial,clock+1,clock+big; K = add configuration request, G = grow cache, Z = re-add the handle returned last]", _m, g_hist, g_cfg); } while (0)
 
 /* ------------------------------------------------------------------ environment hooks */
 static int h_connect(sn_conn *c) {
@@ -171,6 +175,7 @@ static void world_close(void) {
 	int i;
 	/* handles not yet returned belong to the service */
 	(void)i;
+	KSI_AsyncHandle_free(W.kept); W.kept = NULL;
 	KSI_AsyncService_free(W.svc);
 	KSI_CTX_free(W.ctx);
 	vb_free(&W.last_valid_reply);
@@ -251,6 +256,27 @@ static void check_returned(KSI_AsyncHandle *h) {
 	if (idx < 0) { HF("foreign-handle", "run returned a handle that was never accepted (state %d)", state); W.violated = 1; KSI_AsyncHandle_free(h); return; }
 	W.req[idx].returned = 1; W.nreturned++;
 	if (!W.req[idx].is_conf) W.last_returned_id = W.req[idx].id;
+	if (!W.req[idx].is_conf) {
+		/* what the handle tells about itself: the id it was sent under, and a response object exactly in the answered state */
+		KSI_uint64_t rid = 0;
+		KSI_AggregationResp *ar = NULL;
+		int gr;
+		if (KSI_AsyncHandle_getRequestId(h, &rid) != KSI_OK || (W.req[idx].id != 0 && rid != W.req[idx].id)) { HF("handle-request-id", "request #%d went out under id %llx, its handle reports %llx", idx, (unsigned long long)W.req[idx].id, (unsigned long long)rid); W.violated = 1; }
+		gr = KSI_AsyncHandle_getAggregationResp(h, &ar);
+		if (state == KSI_ASYNC_STATE_RESPONSE_RECEIVED) {
+			KSI_Integer *ri = NULL, *st = NULL;
+			if (gr != KSI_OK || ar == NULL) { HF("answered-without-response-object", "request #%d is handed back as answered but KSI_AsyncHandle_getAggregationResp gives 0x%x / %s", idx, gr, ar ? "object" : "NULL"); W.violated = 1; }
+			else {
+				KSI_AggregationResp_getRequestId(ar, &ri); KSI_AggregationResp_getStatus(ar, &st);
+				if (ri == NULL || KSI_Integer_getUInt64(ri) != W.req[idx].id || (st != NULL && KSI_Integer_getUInt64(st) != 0)) { HF("response-object-mismatch", "request #%d (id %llx): the response object on its handle bears id %llx status %llu", idx, (unsigned long long)W.req[idx].id, ri ? (unsigned long long)KSI_Integer_getUInt64(ri) : 0ULL, st ? (unsigned long long)KSI_Integer_getUInt64(st) : 0ULL); W.violated = 1; }
+			}
+		} else if (state == KSI_ASYNC_STATE_ERROR) {
+			KSI_Signature *none = NULL;
+			int sr = KSI_AsyncHandle_getSignature(h, &none);
+			if (ar != NULL) { HF("error-with-response", "request #%d is handed back as failed (0x%x) but its handle carries a response object", idx, err); W.violated = 1; }
+			if (sr == KSI_OK || none != NULL) { HF("error-with-signature", "request #%d is handed back as failed (0x%x) but KSI_AsyncHandle_getSignature gives 0x%x and %s", idx, err, sr, none ? "a signature" : "NULL"); W.violated = 1; KSI_Signature_free(none); }
+		}
+	}
 	if (W.req[idx].is_conf && state == KSI_ASYNC_STATE_PUSH_CONFIG_RECEIVED) {
 		KSI_Config *cf = NULL;
 		vf_outcome("returned:conf-response");
@@ -294,7 +320,8 @@ static void check_returned(KSI_AsyncHandle *h) {
 	} else {
 		HF("non-final-state", "request #%d handed back in non-final state %d", idx, state); W.violated = 1;
 	}
-	KSI_AsyncHandle_free(h);
+	if (g_keep && !W.req[idx].is_conf) { KSI_AsyncHandle_free(W.kept); W.kept = h; W.kept_seed = W.req[idx].seed; }
+	else KSI_AsyncHandle_free(h);
 }
 
 static void do_run(void) {
@@ -378,6 +405,23 @@ static int apply_inner(int ev) {
 				if (res != KSI_ASYNC_REQUEST_CACHE_FULL || (outstanding() != W.cfg.cache && !other)) { HF("conf-refused-without-reason", "configuration request refused with 0x%x while %d requests are outstanding (cache size %d) and no other configuration request is", res, outstanding(), W.cfg.cache); W.violated = 1; }
 				KSI_AsyncHandle_free(h);
 			}
+			return 1;
+		}
+		case EV_READD: {
+			int res;
+			if (W.kept == NULL || W.nreq >= MAXREQ) return 0;
+			res = KSI_AsyncService_addRequest(W.svc, W.kept);
+			vf_count("impl_calls", 1);
+			if (res == KSI_OK) {
+				if (outstanding() >= W.cfg.cache) { HF("cache-overfull", "re-submitted request accepted although %d requests are outstanding with cache size %d", outstanding(), W.cfg.cache); W.violated = 1; }
+				memset(&W.req[W.nreq], 0, sizeof W.req[0]);
+				W.req[W.nreq].h = W.kept; W.req[W.nreq].seed = W.kept_seed; W.req[W.nreq].add_time = sn_now; W.req[W.nreq].add_step = W.step; W.nreq++;
+				W.kept = NULL;
+				vf_outcome("readd:accepted");
+			} else if (res == KSI_ASYNC_REQUEST_CACHE_FULL) {
+				vf_outcome("readd:cache-full");
+				if (outstanding() != W.cfg.cache) { HF("cache-full-early", "'cache full' for a re-submitted handle with %d outstanding requests and cache size %d", outstanding(), W.cfg.cache); W.violated = 1; }
+			} else { vf_outcome("readd:error"); HF("add-error", "addRequest of a handle that had been returned failed with 0x%x", res); W.violated = 1; }
 			return 1;
 		}
 		case EV_ADD: {
@@ -543,6 +587,7 @@ static uint64_t state_key(void) {
 		h = mix(h, (uint64_t)(r->sent_complete | r->valid_reply_arrived << 1 | r->answered << 2 | r->id_reply_arrived << 3 | r->stale_id_reply_arrived << 4 | r->madeup_reply_first << 7 | r->is_conf << 5 | (r->is_conf && W.conf_arrived > r->conf_seen_at_add) << 6)); h = mix(h, r->id); h = mix(h, age(r->add_time, maxto)); h = mix(h, r->sent_complete ? age(r->sent_time, maxto) : 77);
 	}
 	for (k = 0; k < W.nreply; k++) if (!W.reply[k].arrived) { h = mix(h, (uint64_t)W.reply[k].kind); h = mix(h, W.reply[k].id); }
+	if (g_keep) { h = mix(h, W.kept ? 1 + (uint64_t)W.kept->state : 0); h = mix(h, W.kept ? W.kept_seed : 0); }
 	return h;
 }
 
@@ -760,6 +805,31 @@ static void part_conf(void) {
 	}
 }
 
+/* handles submitted again after they came back: a new request with a new id; what the earlier round left on the handle
+ * (response object, error, raw request) must not show in the new round's result */
+static void part_readd(void) {
+	static const int ALPHA[] = {EV_ADD, EV_READD, EV_RUN, EV_REPLY_OLDEST, EV_REPLY_STATUS, EV_ERROR_PDU, EV_DELIVER_ALL, EV_PEER_CLOSE, EV_CLOCK_BIG, EV_REPLY_DUP, EV_REPLY_STALE};
+	static const int CFGI[] = {1, 0, 2};
+	int na = VF_THOROUGH ? 11 : 9, ci, a2, depth = VF_THOROUGH ? 9 : 7, e;
+	g_keep = 1;
+	for (ci = 0; ci < (VF_THOROUGH ? 3 : 2); ci++) for (a2 = 0; a2 < na; a2++) {
+		int hist[16];
+		if (!vf_case_begin("readd:cfg%d:A%c:d%d", CFGI[ci], EVCH[ALPHA[a2]], depth)) continue;
+		g_nalpha = 0;
+		for (e = 0; e < na; e++) g_alpha[g_nalpha++] = ALPHA[e];
+		memset(seen, 0, ((size_t)1 << SEEN_BITS) * sizeof *seen);
+		n_states = n_transitions = n_pruned = n_traces = 0;
+		hist[0] = EV_ADD; hist[1] = ALPHA[a2];
+		explore(&CONFIGS[CFGI[ci]], hist, 2, depth);
+		vf_count("states", n_states); vf_count("transitions", n_transitions); vf_count("traces", n_traces); vf_count("pruned_revisits", n_pruned);
+		if (ci == 0 && a2 == 2) vf_sample("readd part: cfg %d prefix A%c depth %d over {add, re-add the handle returned last, run, reply, status reply, error PDU, deliver all, peer close, clock (thorough: + duplicate / stale reply)}: %ld states, %ld transitions", CFGI[ci], EVCH[ALPHA[a2]], depth, n_states, n_transitions);
+		vf_obs("states=%ld", n_states);
+		alpha_main();
+		vf_case_end(n_traces > 0);
+	}
+	g_keep = 0;
+}
+
 /* unequal send / receive time-outs: the exact moment a request may be given up. Small alphabet (add, run, reply, deliver all,
  * clock + 1 s), deeper search */
 static void part_timeouts(void) {
@@ -802,6 +872,7 @@ static void run(void) {
 	seen = calloc((size_t)1 << SEEN_BITS, sizeof *seen);
 	alpha_main();
 	part_conf();
+	part_readd();
 	part_timeouts();
 	for (ci = 0; ci < NCONFIGS; ci++) {
 		int d = depth;
